@@ -15,7 +15,9 @@ package frame
 //@   invariant recvlink-not-typed-nil [C13]: self.recvLink != nil ==> nonnil(self.recvLink)
 //@   invariant builder-margins [C13]: self.builder != nil ==> (0 <= self.builder.offset.v && self.builder.offset.v <= 100 && 0 <= self.builder.overhead.v && self.builder.overhead.v <= 100)
 //@   invariant offset-range [C13]: self.data != nil ==> 0 <= self.psDataOffset && self.psDataOffset <= 65536
-//@   invariant pooled [C17]: self.data != nil && self.pooledSlice != nil ==> base(self.data) == base(self.pooledSlice) && self.psDataOffset >= 0 && off(self.data) == off(self.pooledSlice) + self.psDataOffset && len(self.pooledSlice) == cap(self.pooledSlice) && off(self.pooledSlice) == 0 && self.psDataOffset + cap(self.data) <= len(self.pooledSlice)
+//@   invariant pooled [C17]: self.data != nil && self.pooledSlice != nil ==> base(self.data) == base(self.pooledSlice) && self.psDataOffset >= 0 && off(self.data) == off(self.pooledSlice) + self.psDataOffset
+//@   invariant pooled-whole [C17]: self.data != nil && self.pooledSlice != nil ==> len(self.pooledSlice) == cap(self.pooledSlice) && off(self.pooledSlice) == 0
+//@   invariant pooled-room [C17]: self.data != nil && self.pooledSlice != nil ==> self.psDataOffset + cap(self.data) <= len(self.pooledSlice)
 
 //@ pool Builder.frameV1Pool
 //@   yields *FrameV1
@@ -174,8 +176,12 @@ package frame
 //@ func FrameV1.SetAppendixData
 //@   requires live(f) && (f.pooledSlice != nil ==> base(appendix) != base(f.pooledSlice)) && base(appendix) != base(f.data)
 //@   modifies f.data, f.pooledSlice, f.psDataOffset, f.data[f.appendixIndex:cap(f.data)], mem(f.pooledSlice)
-//@   ensures fits [C09,C17]: (len(appendix) <= 10000 && f.builder != nil && old(f.appendixIndex) + len(appendix) <= 65000) ==> result == nil
-//@   ensures fits-in-place [C17]: (len(appendix) <= 10000 && len(appendix) <= old(cap(f.data)) - f.appendixIndex) ==> result == nil && base(f.data) == old(base(f.data))
+// (65675 is the largest buffer tier; 100 the largest margin a builder accepts)
+//@   ensures fits [C09,C17]: (len(appendix) <= 10000 && f.builder != nil && old(f.psDataOffset) + old(f.appendixIndex) + len(appendix) + 100 <= 65675) ==> result == nil
+//@   ensures fits-in-place [C17]: (len(appendix) <= 10000 && f.builder != nil && len(appendix) <= old(cap(f.data)) - f.appendixIndex - int(f.builder.overhead.v)) ==> result == nil && base(f.data) == old(base(f.data))
+// a frame whose appendix was set can still be handed to a link: the margin a link needs behind the frame is kept free
+// (forwarded announcements grow by a hop record at every hop - C09 reach; FrameDataWithMargins "fits-means-ok")
+//@   ensures room-for-the-link-overhead [C09,C05]: (result == nil && len(appendix) > 0 && f.builder != nil && f.pooledSlice != nil) ==> f.psDataOffset + len(f.data) + int(f.builder.overhead.v) <= len(f.pooledSlice)
 //@   ensures set [C02,C09,C17]: result == nil ==> len(f.data) == f.appendixIndex + len(appendix) && (forall i int :: 0 <= i && i < len(appendix) ==> f.data[f.appendixIndex+i] == appendix[i])
 //@   ensures sealed-bytes-kept [C02,C09]: result == nil ==> (forall i int :: 0 <= i && i < f.appendixIndex ==> f.data[i] == old(f.data[i]))
 //@   ensures error-keeps [C17]: result != nil ==> len(f.data) == old(len(f.data)) && base(f.data) == old(base(f.data))
@@ -187,12 +193,13 @@ package frame
 //@   requires f.builder != nil ==> (0 <= f.builder.offset.v && f.builder.offset.v <= 100 && 0 <= f.builder.overhead.v && f.builder.overhead.v <= 100)
 //@   modifies f.data, f.pooledSlice, f.psDataOffset
 //@   ensures moved [C09]: err == nil ==> fresh(base(f.data)) && base(f.pooledSlice) == base(f.data) && cap(f.data) >= dataSize && len(f.data) == cap(f.data) && off(f.pooledSlice) == 0 && len(f.pooledSlice) == cap(f.pooledSlice) && off(f.data) == f.psDataOffset && 0 <= f.psDataOffset && f.psDataOffset <= 65536 && f.psDataOffset + cap(f.data) <= len(f.pooledSlice)
+//@   ensures room-behind-the-data [C09]: err == nil ==> f.psDataOffset + dataSize + int(f.builder.overhead.v) <= len(f.pooledSlice)
 //@   ensures content-moved [C02,C09]: err == nil ==> (forall i int :: 0 <= i && i < f.appendixIndex ==> f.data[i] == old(f.data[i]))
 //@   ensures old-slice-handed-back [C17]: err == nil ==> base(oldPooledSlice) == old(base(f.pooledSlice)) && len(oldPooledSlice) == old(len(f.pooledSlice)) && cap(oldPooledSlice) == old(cap(f.pooledSlice)) && off(oldPooledSlice) == old(off(f.pooledSlice))
 //@   ensures succeeds-within-limits [C09]: f.builder != nil && old(f.psDataOffset) >= 0 && old(f.psDataOffset) + dataSize + 100 <= 65675 ==> err == nil
 //@   ensures has-builder: err == nil ==> f.builder != nil
 //@   ensures layout-bytes-moved [C02,C09]: err == nil ==> f.data[4] == old(f.data[4]) && f.data[48] == old(f.data[48]) && f.data[f.messageIndex] == old(f.data[f.messageIndex]) && f.data[f.messageIndex+1] == old(f.data[f.messageIndex+1])
-//@   ensures error-keeps [C17]: err != nil ==> base(f.data) == old(base(f.data)) && len(f.data) == old(len(f.data)) && off(f.data) == old(off(f.data)) && cap(f.data) == old(cap(f.data)) && f.psDataOffset == old(f.psDataOffset) && base(f.pooledSlice) == old(base(f.pooledSlice))
+//@   ensures error-keeps [C17]: err != nil ==> base(f.data) == old(base(f.data)) && len(f.data) == old(len(f.data)) && off(f.data) == old(off(f.data)) && cap(f.data) == old(cap(f.data)) && f.psDataOffset == old(f.psDataOffset) && base(f.pooledSlice) == old(base(f.pooledSlice)) && len(f.pooledSlice) == old(len(f.pooledSlice)) && cap(f.pooledSlice) == old(cap(f.pooledSlice)) && off(f.pooledSlice) == old(off(f.pooledSlice))
 
 // ---- sealing -----------------------------------------------------------------------------------
 // The small helpers are inlined so that the exact byte ranges handed to the primitives are checked in
